@@ -18,12 +18,17 @@ package c16
 
 import (
 	"context"
+	"crypto/sha256"
 	"encoding/json"
 	"errors"
 	"fmt"
 	"io/fs"
 	"os"
+	"path/filepath"
+	"regexp"
+	"sort"
 	"strings"
+	"time"
 
 	"cuelang.org/go/internal/verif/core"
 	"cuelang.org/go/internal/verif/shim/vos"
@@ -33,6 +38,7 @@ import (
 )
 
 func init() {
+	core.RegisterChild("c16", childKill)
 	core.Register(&core.Prop{
 		ID: "C16",
 		Rule: "E3+E2 bounded-exhaustive on the real cache code over a real directory: (a) for each scenario in {Fetch, ModFile, ModFile then Fetch, Fetch of two versions, Fetch with the zip already cached, Fetch over a stale partial extraction} every crash point (each file-system effect incl. every file of the extraction and every entry of a tree removal) and every torn write (0 and half of the buffer), followed by a clean run; every pair (crash at i, crash at j of the recovery run, both with torn variants); thorough: every triple for the Fetch scenarios; every registry fault (n-th call fails for every n, body breaks after 0/1/mid/len-1 bytes, digest error at end of body, error reported by Close only) alone and combined with every crash point of the retry; " +
@@ -45,7 +51,7 @@ func init() {
 			"a write of n bytes may be torn at 0 or n/2 bytes",
 		},
 		Run: run, Replay: replay,
-		RequireOutcomes: []string{"history:ok", "crash:left-debris", "fault:retry-ok", "schedule:ok"},
+		RequireOutcomes: []string{"history:ok", "crash:left-debris", "fault:retry-ok", "schedule:ok", "conformance:same-directory"},
 		BudgetQuick:     240, BudgetThorough: 1500,
 		StallSeconds: 300,
 	})
@@ -77,6 +83,9 @@ type kase struct {
 	Choices string `json:"choices,omitempty"`
 }
 
+// HardKill (conformance check only) makes the crash a real process exit.
+var hardKill bool
+
 type procResult struct {
 	crashed  bool
 	effects  int
@@ -89,7 +98,7 @@ type procResult struct {
 
 // runProc runs one simulated process to completion or to its crash.
 func runProc(w *world, dir string, st step) (res procResult) {
-	p := &vos.Proc{ID: 1, CrashAt: st.CrashAt, Torn: st.Torn}
+	p := &vos.Proc{ID: 1, CrashAt: st.CrashAt, Torn: st.Torn, HardKill: hardKill}
 	p.Observer = func(p *vos.Proc, op, path string) {
 		if msg := stateInvariant(w, dir); msg != "" {
 			res.problems = append(res.problems, fmt.Sprintf("after effect %d (%s %s): %s", p.Effects, op, path, msg))
@@ -166,6 +175,7 @@ func run(r *core.Run) {
 	// schedule phase first (no free-running goroutines exist yet)
 	runSchedules(r)
 	runHistories(r)
+	runConformance(r)
 }
 
 func replay(r *core.Run, raw json.RawMessage) {
@@ -490,3 +500,88 @@ func runHistories(r *core.Run) {
 }
 
 var _ = errors.Is
+
+// ---- conformance of the simulated kill with a real one ----
+
+type killReq struct {
+	Dir  string `json:"dir"`
+	Step step   `json:"step"`
+}
+
+// childKill runs in a helper process: it performs the step with a real
+// process exit at the crash point. If the step completes it reports so.
+func childKill(in []byte) []byte {
+	var q killReq
+	if err := json.Unmarshal(in, &q); err != nil {
+		return []byte("bad request")
+	}
+	hardKill = true
+	res := runProc(getWorld(), q.Dir, q.Step)
+	return []byte(fmt.Sprintf("completed effects=%d", res.effects))
+}
+
+// snapshot lists the directory: path, kind and content, with the random part
+// of temporary file names normalised.
+func snapshot(dir string) string {
+	var l []string
+	filepath.WalkDir(dir, func(p string, d fs.DirEntry, err error) error {
+		if err != nil {
+			return nil
+		}
+		rel, _ := filepath.Rel(dir, p)
+		rel = tmpName.ReplaceAllString(rel, "N.tmp")
+		if d.IsDir() {
+			l = append(l, rel+"/")
+			return nil
+		}
+		b, _ := os.ReadFile(p)
+		l = append(l, fmt.Sprintf("%s %d bytes %x", rel, len(b), sha256.Sum256(b)))
+		return nil
+	})
+	sort.Strings(l)
+	return strings.Join(l, "\n")
+}
+
+var tmpName = regexp.MustCompile(`[0-9]+\.tmp`)
+
+func runConformance(r *core.Run) {
+	r.Section("crash-model conformance: a real process killed (os.Exit at the crash point, no unwinding) at every crash point and torn write of the scenarios fetch and modfile-then-fetch leaves the same directory as the simulated kill")
+	w := getWorld()
+	ch := core.NewChild("c16", 60*time.Second)
+	defer ch.Close()
+	for _, sc := range scenarios[:3] {
+		base := kase{Kind: "history", Name: sc.name}
+		clean, ok := measure(r, base, []step{{Ops: sc.ops}})
+		if !ok {
+			continue
+		}
+		for i := 1; i <= clean.effects; i++ {
+			for _, torn := range variants(clean, i) {
+				if !r.Mine() {
+					continue
+				}
+				st := step{Ops: sc.ops, CrashAt: i, Torn: torn}
+				c := kase{Kind: "conformance", Name: sc.name, Steps: []step{st}}
+				r.Guard(c, func() {
+					simDir, realDir := freshDir(), freshDir()
+					defer dropDir(simDir)
+					defer dropDir(realDir)
+					sim := runProc(w, simDir, st)
+					b, _ := json.Marshal(killReq{Dir: realDir, Step: st})
+					out, died, se := ch.Call(b)
+					r.Trans(sim.effects)
+					if !died || !sim.crashed {
+						r.EngineError(fmt.Sprintf("conformance: simulated crashed=%v, real died=%v (%s %s) at effect %d of %s", sim.crashed, died, out, se, i, sc.name))
+						return
+					}
+					if a, b := snapshot(simDir), snapshot(realDir); a != b {
+						r.Violation(hkey("conformance: the simulated kill leaves another directory than a real kill", c), c, "simulated:\n"+a+"\n\nreal process:\n"+b)
+						return
+					}
+					r.Outcome("conformance:same-directory")
+					r.Trace(1)
+				})
+			}
+		}
+	}
+}
